@@ -99,7 +99,7 @@ AGG_IFS = ('SUMIFS', 'AVERAGEIFS', 'MAXIFS', 'MINIFS')
 ERRS = cr.ERROR_CODES
 
 # ------------------------------------------------------------------------------------------ pools
-NUMBERS = [0, 1, 2, 3, 3.0, 5, -1, 2.5, -0.5, 0.5, 10, 100, 1000000]
+NUMBERS = [0, 1, 2, 3, 3.0, 5, -1, 2.5, -0.5, 0.5, 10, 100, 1000000, 0.3, 0.1 + 0.2]     # (two neighbouring floats)
 NUMTEXT = ['3', '2.5', '-1', '0', '1e2', '.5']
 TEXTS = ['a', 'A', 'abc', 'ABC', 'Abd', 'b', 'ab', 'bcd', 'x y', 'Zoë', 'ZOË', 'a*', 'a?c', '*', '?',
          '~', 'a~b', 'a.c', '(b)', 'a+b', 'ab\ncd']
@@ -117,6 +117,8 @@ def criteria_list():
             out.append(op + n)
     # spellings of numbers without a digit before / after the decimal point, with a sign, with an exponent
     out += ['.5', '=.5', '<>.5', '>.5', '>=.5', '<-.25', '>-.75', '<+.75', '5.', '>2.', '<1E1', '>=5e-1']
+    # a number whose neighbouring float is in the range as well: equal means equal
+    out += [0.3, '0.3', '=0.3', '<>0.3', '>0.3', '<=0.3', '=0.30000000000000004']
     for t in ('a', 'ABC', 'abd', 'b', 'x y', 'zoë', 'a.c', '(B)', 'a+b', 'ab\ncd'):
         for op in ('', '=', '<>'):
             out.append(op + t)
